@@ -173,10 +173,10 @@ Proof.
     destruct (enabled l (e_now e)) as [l1 en]. cbn [fst] in He. subst l1.
     rewrite (sys_set_same_id sy name l Hw Hg).
     destruct (negb en); [eauto|]. rewrite Hp. eauto.
-  - intros s now Hne. split; [|split].
-    + intros id. apply DurableExpiry.st_get_noexp. exact Hne.
-    + intros p. apply DurableExpiry.st_search_noexp. exact Hne.
-    + intros ev. apply DurableExpiry.st_find_rules_noexp. exact Hne.
+  - intros s now Hne Hp. split; [|split].
+    + intros id. apply DurableExpiry.st_get_noexp; assumption.
+    + intros p. apply DurableExpiry.st_search_noexp; assumption.
+    + intros ev. apply DurableExpiry.st_find_rules_noexp; assumption.
 Qed.
 
 (** * 6. No panic *)
